@@ -244,6 +244,20 @@ class Real:
         except Exception as e:  # noqa: BLE001 — exceptions of the real code are outputs
             return "err", type(e).__name__
 
+    def result_str(self, op, st, v):
+        """op result as the driver prints it: `ok`, `ok:<positions of the returned parameters in the circuit's
+        parameter list>` (add_parameters; plain add_Parametric*_gate), or the exception class"""
+        if st != "ok":
+            return v
+        if op[0] == "addParams" or (op[0] == "addPar" and op[5] is None):
+            plist = list(self.circs[op[1]].param_mapping.in_params)
+            pos = []
+            for p in v:
+                idx = [i for i, q in enumerate(plist) if q == p]
+                pos.append(str(idx[-1]) if idx else "?")
+            return "ok:" + ",".join(pos)
+        return "ok"
+
     def _apply(self, op):
         from quri_parts.circuit import LinearMappedParametricQuantumCircuit, ParametricQuantumCircuit
 
@@ -625,8 +639,9 @@ def real_run(op_strs, queries):
     real = Real()
     opres = []
     for s in op_strs:
-        st, v = real.apply(dec_op(s))
-        opres.append("ok" if st == "ok" else v)
+        op = dec_op(s)
+        st, v = real.apply(op)
+        opres.append(real.result_str(op, st, v))
     qres = [real.query(q) for q in queries]
     return real, opres, qres
 
@@ -656,17 +671,20 @@ def compare_batch(ctx: Ctx, batch, what="history"):
             mj = json.loads(r)
         except json.JSONDecodeError:
             raise InfraError(f"driver output is not JSON: {r[:200]}")
-        if mj == "bad-request" or any(x == "bad-query" for x in (mj[1] if isinstance(mj, list) else [])):
-            raise InfraError(f"driver rejected the request: {line[:300]} -> {r[:200]}")
         _, ropres, rqres = real_run(op_strs, queries)
         rc = canon_response(ropres, rqres, queries, False)
-        mc = canon_response(mj[0], mj[1], queries, True)
+        if mj == "bad-request" or any(x == "bad-query" for x in (mj[1] if isinstance(mj, list) else [])):
+            # a parameter / circuit reference of the history does not resolve in the model's store: the stores have
+            # diverged (the request itself is generated from the real run, so on agreeing stores this cannot happen)
+            mc = ["model-cannot-resolve-a-reference", mj if isinstance(mj, str) else mj[0]]
+        else:
+            mc = canon_response(mj[0], mj[1], queries, True)
         ctx.traces += 1
         kinds = [o.split(":")[0] for o in op_strs]
         for k in kinds:
             ctx.count("ops", k)
         for x in ropres:
-            ctx.count("op_outcome", x)
+            ctx.count("op_outcome", x.split(":")[0])
         for q, x in zip(queries, rqres):
             if isinstance(x, list) and x and x[0] == "err":
                 ctx.count("query_outcome", f"{q.split(':')[0]}:{x[1]}")
@@ -878,10 +896,60 @@ def check_against_reference(ctx: Ctx, c10ref, ops, rng, report=True):
             if got != want:
                 found.append(("bind-spec", f"circuit {h}: bind_parameters({real_vals}) = {got} but every parametric gate should carry "
                               f"its function's value: {want}", op_strs))
+                continue
+            if not real.is_lin(c) or len(mapped) != len(dedup):
+                continue
+            found += mapping_rules(h, c, rc, vals, real_vals, want, op_strs)
     if report:
         for key, what, hist in found:
             ctx.witness(key, what, {"ops": hist}, None)
     return found
+
+
+def mapping_rules(h, c, rc, vals, real_vals, want, op_strs):
+    """documented behaviour of seq_mapper / is_trivial_mapping / binding with a missing value, for a linearly
+    mapped circuit whose parameter list has no repetition (reference circuit `rc`, bound reference gates `want`)"""
+    out = []
+    pm = c.param_mapping
+    par_gates = [g for g in rc.gates if g[0] == "p"]
+    angles = [g[4][0] for g, src in zip(want, rc.gates) if src[0] == "p"]
+    # seq_mapper: one value per parametric gate, in gate order; wrong count is a ValueError
+    try:
+        got = ["v" + rat_s(Fraction(x)) for x in pm.seq_mapper(real_vals)]
+        if got != angles:
+            out.append(("seq-mapper-values", f"circuit {h}: seq_mapper({real_vals}) = {got}, expected the gate angles {angles}", op_strs))
+    except Exception as e:  # noqa: BLE001
+        out.append(("seq-mapper-values", f"circuit {h}: seq_mapper({real_vals}) raised {type(e).__name__}", op_strs))
+    for bad in (real_vals + [0.5], real_vals[:-1]):
+        if len(bad) == len(real_vals):
+            continue
+        try:
+            pm.seq_mapper(bad)
+            out.append(("seq-mapper-length", f"circuit {h}: seq_mapper accepted {len(bad)} values for {len(real_vals)} parameters", op_strs))
+        except ValueError:
+            pass
+        except Exception as e:  # noqa: BLE001
+            out.append(("seq-mapper-length", f"circuit {h}: seq_mapper with {len(bad)} values raised {type(e).__name__}, not ValueError", op_strs))
+    # is_trivial_mapping
+    triv = bool(c.has_trivial_parameter_mapping)
+    fns = [g[4] for g in par_gates]
+    uses_const = any("C" in f for f in fns)
+    identity_like = (len(fns) == len(rc.params) and all(len(f) == 1 and "C" not in f and list(f.values()) == [Fraction(1)] for f in fns)
+                     and len({next(iter(f)) for f in fns}) == len(fns))
+    if identity_like and not triv:
+        out.append(("trivial-mapping", f"circuit {h}: every gate uses its own parameter with coefficient 1 but has_trivial_parameter_mapping is False", op_strs))
+    if triv and not uses_const and sorted(angles) != sorted("v" + rat_s(Fraction(x)) for x in real_vals):
+        out.append(("trivial-mapping", f"circuit {h}: has_trivial_parameter_mapping is True but the gate angles {angles} are not the "
+                    f"parameter values {real_vals}", op_strs))
+    # binding without a value for a parameter that a gate uses must fail
+    if rc.params and any(rc.params[-1] in f for f in fns):
+        try:
+            c.bind_parameters(real_vals[:-1])
+            out.append(("bind-missing-value", f"circuit {h}: bind_parameters with {len(real_vals) - 1} values for {len(real_vals)} used "
+                        f"parameters did not raise", op_strs))
+        except Exception:  # noqa: BLE001
+            pass
+    return out
 
 
 def oracle_transpile(ctx: Ctx, budget_s: float, min_cases: int):
@@ -957,7 +1025,7 @@ def replay_f6(ctx: Ctx):
     """the witness of Props/C10.lean `combine_shared_counterexample`, on the real code"""
     ops = F6_HISTORY.split(" | ")
     real, opres, _ = real_run(ops, [])
-    if opres != ["ok"] * len(ops):
+    if [x.split(":")[0] for x in opres] != ["ok"] * len(ops):
         ctx.notes.append(f"F6 witness history no longer runs: {opres}")
         return
     c = real.circs[1]
